@@ -1554,7 +1554,7 @@ impl Prop for C13 {
         "exploration"
     }
     fn rule(&self) -> String {
-        "Seeded generator of race-free-by-construction shell programs (pipelines of 2-4 stages with read/relay/count stages, ( ), $( ) (as an assignment, twice in one word of a command, with an asynchronous grandchild that keeps the pipe open after the substitution's shell has left, and with output larger than a pipe holds); a fifth of the programs run in an interactive shell (`-i -c`), a sixth under job control (`-m`; every asynchronous job starts with a probe that it is a process group of its own), the `wait` built-in interrupted by a trapped signal while other children change state at the same simulated time, `{ ...; exit N; } >file &` jobs with $! capture, wait PID / wait / wait UNKNOWN, if/for/functions, pipefail on/off, nesting <= 3); expectations from a reference interpreter of the generator AST. Each program runs whole on the simulated OS under the FIFO baseline plus seeded schedules (random, PCT, round-robin, FIFO-with-deviations) with preemption at kernel-call boundaries and short reads/writes. A run counts as distinct non-trivial when it had >= 2 processes, >= 1 scheduling point with >= 2 ready tasks (or >= 1 fired fault) and its (program hash, schedule hash, fault count) triple was not seen before (hash set). Engine (k): 20/60 seeded histories per case on the simulated kernel's process table (fork, exit, setpgid, kill to a process or a process group incl. STOP/CONT/KILL/0, sigmask, sigaction, wait) against a POSIX life-cycle model. Added configurations: programs in which the main shell traps USR1 and foreground children send it, or traps TERM/HUP and kills young jobs with them; children waiting for the parent's jobs (127); orphans; every program ends by writing the shell's descriptor table to a file (must be the initial one). Fault runs with a relaxed oracle (termination, true wait statuses, nothing runs after its death, no descriptor left behind): fork fails with EAGAIN at a seeded position; a descriptor allocation of any process fails with EMFILE at a seeded position; children are killed with SIGKILL from outside at seeded steps.".into()
+        "Seeded generator of race-free-by-construction shell programs (pipelines of 2-4 stages with read/relay/count stages, ( ), $( ) (as an assignment, twice in one word of a command, with an asynchronous grandchild that keeps the pipe open after the substitution's shell has left, and with output larger than a pipe holds); a fifth of the programs run in an interactive shell (`-i -c`), a sixth under job control (`-m`; every asynchronous job starts with a probe that it is a process group of its own), the `wait` built-in interrupted by a trapped signal while other children change state at the same simulated time, `{ ...; exit N; } >file &` jobs with $! capture, wait PID / wait / wait UNKNOWN, if/for/functions, pipefail on/off, nesting <= 3); expectations from a reference interpreter of the generator AST. Each program runs whole on the simulated OS under the FIFO baseline plus seeded schedules (random, PCT, round-robin, FIFO-with-deviations) with preemption at kernel-call boundaries and short reads/writes. A run counts as distinct non-trivial when it had >= 2 processes, >= 1 scheduling point with >= 2 ready tasks (or >= 1 fired fault) and its (program hash, schedule hash, fault count) triple was not seen before (hash set). Engine (k): 20/60 seeded histories per case on the simulated kernel's process table (fork, exit, setpgid, kill to a process or a process group incl. STOP/CONT/KILL/0, sigmask, sigaction, wait) against a POSIX life-cycle model. Added configurations: programs in which the main shell traps USR1 and foreground children send it, or traps TERM/HUP and kills young jobs with them; children waiting for the parent's jobs (127); orphans; every program ends by writing the shell's descriptor table to a file (must be the initial one). Fault runs with a relaxed oracle (termination, true wait statuses, nothing runs after its death, no descriptor left behind): fork fails with EAGAIN at a seeded position; a descriptor allocation of any process fails with EMFILE at a seeded position; children are killed with SIGKILL from outside at seeded steps. Blocks wrapped in `eval '...'` / `command eval '...'`: children started and awaited inside a built-in.".into()
     }
     fn assumptions(&self) -> Vec<String> {
         vec![
